@@ -41,7 +41,8 @@ exception X1 { 1: string m }
 exception X2 { 1: string m }
 service S1 {
   void f1() throws (1: X1 x, 2: a.XA xa)
-  void f2() throws (1: X2 x, 2: b.XB xb, 3: X1 y)
+  void f2() throws (1: X2 x, 2: b.XB xb)
+  void f3() throws (1: b.XB x)
 }
 service S2 extends c.SC {
   a.A g(1: b.B b) throws (1: X2 x)
